@@ -272,6 +272,8 @@ def wf_real(obj):
     want = tuple(int(b.num_functions()) for b in obj.bases) + (int(obj.dimension) + (1 if obj.rational else 0),)
     if tuple(cps.shape) != want:
         out.append('control array shape %r, bases and dimension say %r' % (tuple(cps.shape), want))
+    if not obj.dimension >= 1:
+        out.append('physical dimension %r < 1' % (obj.dimension,))
     for d, b in enumerate(obj.bases):
         out += _basis_failures(b, d)
     if obj.rational and cps.size:
@@ -505,7 +507,7 @@ def _gen_affine(rng, o):
     if fam == 'project':
         return {'op': 'project', 'plane': rng.choice(['xy', 'xz', 'yz', 'x', 'y', 'z', 'XY', 'xyz'])}
     if fam == 'set_dimension':
-        return {'op': 'set_dimension', 'n': rng.choice([2, 3, 3, 2, 1, 4])}
+        return {'op': 'set_dimension', 'n': rng.choice([2, 3, 3, 2, 1, 4])}      # >= 1: a 0-dimensional object is not a geometry
     return {'op': 'force_rational'}
 
 
